@@ -98,6 +98,18 @@ CHECKS = {
             "'No storms' is decided as these per-datagram and quiescence bounds, not as an absolute datagram budget.",
             "Flights are segmented causally (emissions between two reads of the endpoint at one virtual instant).",
             "DESIGN.md §4 C17"),
+    "C03": ("fault_enumeration",
+            "runtime monitoring with a rogue-but-competent peer: genuine endpoint with manipulated credentials (other CA, wrong "
+            "name, expired, stolen chain behind a lying crypto.Signer, wrong PSK) and flights rewritten through the tag-guarded "
+            "FilterFlight hook (omitted Certificate / ServerKeyExchange / CertificateVerify with Finished recomputed); oracle = "
+            "independent acceptance table",
+            "The deviation table is executed exhaustively for DTLS 1.2 and 1.3: rogue server x key type x client verification on/off, "
+            "rogue client x the five ClientAuthType policies, wrong PSK on either side; thorough crosses it with EMS off, CID, no "
+            "hello-verify and small MTU. Expected-reject rows must leave the honest side without an established connection and without "
+            "any application data; expected-accept rows are positive controls and must succeed.",
+            "The acceptance table encodes the documented policy semantics (RequestClientCert with missing/bad proof is not judged). "
+            "Cryptographic forgery beyond omission/substitution is out of reach of an adversary without keys and is not attempted.",
+            "DESIGN.md §4 C03"),
 }
 
 NOT_YET = "monitor not built yet in this session (see DESIGN.md for the planned design)"
